@@ -70,7 +70,7 @@ theorem inv_setop (hP : P.Layout) (w : World) (g : Ghost ι) (hi : Inv P hf w g)
       · by_cases h2 : (op != .invert && !compatible f g') = true
         · simp only [opSet, gstep, hv, hu, h1, h2, if_true, Bool.false_eq_true, if_false]; exact hi
         · simp only [opSet, gstep, hv, hu, h1, h2, Bool.false_eq_true, if_false]
-          have hcap : 0 < f.capBits := hi.2 v f hv
+          have hcap : 0 < f.capBits := (hi.2 v f hv).1
           have hcc : op = .invert ∨ g'.capBits = f.capBits := by
             cases op with
             | invert => exact Or.inl rfl
